@@ -584,6 +584,12 @@ def correspond(ctx):
         "axl_route_partial hypotheses: SameSlaveWhileLocked, NoDataBeforeAddr, AXI-legal environment (valid held, "
         "responses only to accepted requests, in order), at most 255 outstanding requests per counter, disjoint address map",
         "first/last lines travel as pass-through payload; finite timeouts are modelled by composition with C11's Timeout FSM",
+        "closed-system theorems (axl_closed_*, axl_end_to_end_*): the per-cycle hypotheses are replaced by port-local rules "
+        "of legal masters/slaves (LocalOK: a master with unanswered requests stays with the slave of its last accepted "
+        "address; a slave answers only held requests and accepts at most 255) — evaluated by the Lean side (open localmon) "
+        "on the harness's AXI-legal runs and on the finding witnesses; NoDataBeforeAddr remains (open finding)",
+        "SoC glue: SocAxi.fabric (over b-c06's busTopology) chooses the model of every SoCBusHandler instance; Disjoint is "
+        "discharged for accepted region lists via b-c06/b-c13's accepted_index_disjoint (RegionsDecodable)",
     ]
     ctx.extra_trusted = ["harness/axilib.py FastNetlist (compiled evaluator of the lowered netlist), cross-checked against "
                          "litex.gen.sim.core.Evaluator on every instance of every run and by two Evaluator-only mode-B instances"]
